@@ -419,10 +419,12 @@ var def = pbt.Def[Case]{Name: "adversarial-responder", Gen: gen, Run: judge}
 func TestProp(t *testing.T) {
 	outerT = t
 	pbt.Check(t, run, def, 8000, 200000)
+	pbt.Check(t, run, defPaused, 3000, 60000)
 }
 
 func TestReplay(t *testing.T) {
 	outerT = t
 	pbt.Register(run, def)
+	pbt.Register(run, defPaused)
 	run.Replay(t)
 }
